@@ -1,3 +1,4 @@
+import SdbModel.Generated.TableParams
 import SdbModel.Lemmas.Table
 
 /-!
@@ -496,5 +497,10 @@ example : (modify t2 0 oA true).2.2 = .ok ∧ (modify t2 9 oA false).2.2 = .revN
 /-- a reachable database state with an open write transaction -/
 example : Reach ((newDB.step (.beginW true false)).step (.modify 0 0 oA false)) :=
   Reach.step _ (Reach.step _ Reach.init (DB.bounded_of_boundedB _ (by decide))) (DB.bounded_of_boundedB _ (by decide))
+
+/-- the structural facts about write_txn.go, graveyard.go, iterator.go and deletetracker.go that
+    `Model.Table` builds in — the rejection and guard logic of `modify` / `delete` (closed transaction, table not held, CompareAndSwap / CompareAndDelete) — hold of the source as it is today (regenerated by
+    `tools/extract` on every run) -/
+theorem C03_source_facts : Gen.tableFacts = Tbl.expectedFacts := by decide
 
 end Sdb
